@@ -455,6 +455,8 @@ func c15ConcBody(sc c15Conc, res *string) func(x *sched.Exec) {
 						tp.RegisterSpanProcessor(p2)
 					case "Reg3":
 						tp.RegisterSpanProcessor(p3)
+					case "Flush":
+						_ = tp.ForceFlush(context.Background())
 					case "Span":
 						_, sp := tp.Tracer("n").Start(context.Background(), "s")
 						sp.End()
@@ -560,6 +562,7 @@ func c15ConcJobs(thorough bool) []c15Conc {
 		{2, 0, "X4-blocking-batch-end-end-shutdown", "batch(E)", [][]string{{"End"}, {"End"}, {"Shutdown"}}, true},
 		{1, 1, "X5-batch-shutdown-unreg", "batch(E)", [][]string{{"Shutdown"}, {"Unreg1"}, {"End"}}, false},
 		{2, 0, "X8-unreg-first-of-three-during-end", "rec3", [][]string{{"Unreg1"}, {"End"}, {"Span"}}, false},
+		{1, 1, "X11-batch-flush-shutdown", "batch(E)", [][]string{{"End", "Flush"}, {"Shutdown"}}, false}, // no call blocks forever
 		{2, 0, "X9-register-during-unregister", "recY", [][]string{{"Unreg1"}, {"Reg2"}}, false},
 		{2, 0, "X10-two-registers-during-unregister", "recY", [][]string{{"Unreg1"}, {"Reg2"}, {"Reg3"}}, false},
 	}
@@ -570,6 +573,8 @@ func c15ConcJobs(thorough bool) []c15Conc {
 			c15Conc{1, 1, "X6-shutdownC-shutdown-end", "batch(E)", [][]string{{"ShutdownC"}, {"Shutdown"}, {"End"}}, false},
 			c15Conc{2, 0, "X6-shutdownC-shutdown-end", "batch(E)", [][]string{{"ShutdownC"}, {"Shutdown"}, {"End"}}, false}, // (2,1) does not finish within the budget
 			c15Conc{2, 0, "X7-blocking-batch-3ends-shutdown", "batch(E)", [][]string{{"End", "End"}, {"End"}, {"Shutdown"}}, true},
+			c15Conc{2, 1, "X11-batch-flush-shutdown-end", "batch(E)", [][]string{{"Flush"}, {"Shutdown"}, {"End"}}, false},
+			c15Conc{1, 1, "X12-batch-flush-unreg", "batch(E)", [][]string{{"Flush"}, {"Unreg1"}}, false},
 			c15Conc{3, 0, "X1-shutdown-shutdown-unreg", "rec", [][]string{{"Shutdown"}, {"Shutdown"}, {"Unreg1"}}, false},
 		)
 	}
